@@ -388,6 +388,31 @@ def scope_key(repo, res):
     if not re.search(r"self\.scopes = \{(\w+): \{\} for \1 in self\.ir\.expression\.integrand\.keys\(\)\}", si):
         res.fail(key, "scopes are not created per (cell, rule) key of the integrand map", m.line(init.node))
 
+    # the piecewise scope is shared by all rules, but the factorisation graph whose `piecewise` nodes fill it
+    # is selected per (cell, rule): sound only if `piecewise` cannot be an artefact of the rule
+    pp = m.func("IntegralGenerator.generate_piecewise_partition")
+    res.functions.add(pp.key)
+    key = f"{pp.key}:shared-scope-vs-per-rule-classification"
+    res.ob(key)
+    s_pp = ast.unparse(pp.node)
+    sel = re.search(r"self\.ir\.expression\.integrand\[\(?domain, quadrature_rule\)?\]\['factorization'\]", s_pp)
+    call = [c for c in calls_in(pp.node) if (call_name(c) or "").endswith("generate_partition")]
+    if not sel or len(call) != 1 or len(call[0].args) != 5:
+        raise AnalysisError("generate_piecewise_partition: selection of F / call of generate_partition not recognised")
+    shared = all(isinstance(a, ast.Constant) and a.value is None for a in call[0].args[3:5])
+    et = repo.mod("ffcx.ir.elementtables")
+    ipt = et.func("is_piecewise_table")
+    att = et.func("analyse_table_type")
+    res.functions.update({ipt.key, att.key})
+    s_ipt = ast.unparse(ipt.node)
+    # vacuous for one point: all(... for i in range(1, table.shape[2])) with no guard on the number of points
+    vacuous = re.search(r"range\(1, table\.shape\[2\]\)", s_ipt) is not None and not re.search(r"shape\[2\] (>|>=|==|!=|<|<=) ", s_ipt + ast.unparse(att.node))
+    if shared and vacuous:
+        res.fail(key, "the piecewise scope (None, None) is shared by all quadrature rules of an integral, but a node's `piecewise` status "
+                 "comes from the tables of one rule and is_piecewise_table is vacuously true for a one-point rule: with two different "
+                 "one-point rules (f*v*dx(custom point p) + f*v*dx(custom point q), f in P2) the second rule reuses f evaluated at p",
+                 m.line(call[0]))
+
 
 def _guard_var_from_own_scope(fnode, guard) -> bool:
     """The guard tests a local that was read from self.scopes[(domain, quadrature_rule)]."""
